@@ -769,7 +769,7 @@ func c10idOracle(c *Case, impl string) *Viol {
 	if want, ok := c10Official[c.Req]; ok {
 		f := strings.Split(impl, " ")
 		if len(f) != 4 || (want.id != "" && f[1] != want.id) || (want.phstr != "\x00" && f[3] != hxs(want.phstr)) {
-			return &Viol{What: "official vector: expected id " + want.id + " placeholder string " + strconv.Quote(want.phstr), Want: want.id + " " + hxs(want.phstr)}
+			return &Viol{Key: "c10:official-vector:" + want.phstr, What: "official vector: expected id " + want.id + " placeholder string " + strconv.Quote(want.phstr), Want: want.id + " " + hxs(want.phstr)}
 		}
 	}
 	if !strings.HasPrefix(impl, "OK ") {
@@ -848,6 +848,8 @@ func genC10id(g *G) {
 		[]string{"setName", "setMembers"}, "135956960462609535", "The set of {SET_NAME} is {{XXX}, ...}.")
 	fixed("", "The number of eggs you need.", "\n{plural $eggs}\n  {case 1}You have one egg\n  {default}You have {$eggs} eggs\n{/plural}",
 		[]string{"eggs"}, "176798647517908084", "{EGGS_1,plural,=1{You have one egg}other{You have {EGGS_2} eggs}}")
+	// examples_extracted.xlf of closure-templates, the message of features.soy with a print inside a tag
+	fixed("", "Link to Labs", "Click <a href=\"{$labsUrl}\">here</a> to access Labs.", []string{"labsUrl"}, "5539341884085868292", "Click {START_LINK}here{END_LINK} to access Labs.")
 	for _, t := range []struct {
 		body   string
 		params []string
